@@ -47,6 +47,10 @@ pub struct Block {
     pub lazies: Vec<LazyKind>,
     pub bodies: Vec<Vec<Op>>,
     pub main: Vec<Op>,
+    /// channels and references carry strings built at run time (heap values reachable only
+    /// through the queue / the cell) instead of Ints
+    #[serde(default)]
+    pub heap: bool,
 }
 
 // ---- model -------------------------------------------------------------------------------
@@ -224,10 +228,25 @@ let obs_resume x =
     | Ok _ -> h.log 4000
     | Err _ -> h.log 4999
 let dummy = lazy (\_ -> 0)
+let mk = (import! std.prim).show_int
+let unmk s =
+    match (import! std.int.prim).parse s with
+    | Ok v -> v
+    | Err _ -> 998
+let obs_recv_h x =
+    match x with
+    | Ok s -> h.log (1000 + unmk s)
+    | Err _ -> h.log 1999
 "#;
 
-fn op_text(op: &Op, ind: &str, o: &mut String) {
+fn op_text(op: &Op, ind: &str, heap: bool, o: &mut String) {
     match op {
+        Op::Send(c, v) if heap => o.push_str(&format!("{}do _ = send c{}.sender (mk {})\n", ind, c, v)),
+        Op::Recv(c) if heap => {
+            o.push_str(&format!("{}do x = recv c{}.receiver\n{}let _ = obs_recv_h x\n", ind, c, ind))
+        }
+        Op::Load(r) if heap => o.push_str(&format!("{}do x = load r{}\n{}let _ = h.log (2000 + unmk x)\n", ind, r, ind)),
+        Op::Store(r, v) if heap => o.push_str(&format!("{}do _ = r{} <- mk {}\n", ind, r, v)),
         Op::Send(c, v) => o.push_str(&format!("{}do _ = send c{}.sender {}\n", ind, c, v)),
         Op::Recv(c) => {
             o.push_str(&format!("{}do x = recv c{}.receiver\n{}let _ = obs_recv x\n", ind, c, ind))
@@ -248,10 +267,10 @@ pub fn block_text(b: &Block, marker: i64) -> String {
     let mut o = String::new();
     o.push_str(&format!("let _ = h.log {}\n", marker));
     for c in 0..NCH {
-        o.push_str(&format!("do c{} = channel 0\n", c));
+        o.push_str(&format!("do c{} = channel {}\n", c, if b.heap { "\"\"" } else { "0" }));
     }
     for r in 0..NREF {
-        o.push_str(&format!("do r{} = ref 0\n", r));
+        o.push_str(&format!("do r{} = ref {}\n", r, if b.heap { "(mk 0)" } else { "0" }));
     }
     if !b.lazies.is_empty() {
         let fields: Vec<String> = (0..b.lazies.len()).map(|i| format!("l{} = dummy", i)).collect();
@@ -275,7 +294,7 @@ pub fn block_text(b: &Block, marker: i64) -> String {
                 // the argument is evaluated)
                 o.push_str(&format!("do t{} = spawn (\n        do _ = wrap ()\n", t));
                 for bop in &b.bodies[*t] {
-                    op_text(bop, "        ", &mut o);
+                    op_text(bop, "        ", b.heap, &mut o);
                 }
                 o.push_str("        wrap ()\n    )\n");
             }
@@ -283,7 +302,7 @@ pub fn block_text(b: &Block, marker: i64) -> String {
                 "do _ = io.catch (flat_map (\\x -> wrap (obs_resume x)) (resume t{})) (\\_ -> wrap (h.log 4998))\n",
                 t
             )),
-            other => op_text(other, "", &mut o),
+            other => op_text(other, "", b.heap, &mut o),
         }
     }
     o
@@ -351,7 +370,7 @@ fn enumerate(max_len: usize) -> Vec<Block> {
                 for op in alphabet(pos) {
                     let mut s2 = s.clone();
                     s2.push(op);
-                    let b = Block { lazies: lazies.clone(), bodies: bodies.clone(), main: s2.clone() };
+                    let b = Block { lazies: lazies.clone(), bodies: bodies.clone(), main: s2.clone(), heap: false };
                     if well_scoped(&b) {
                         next.push(s2);
                     }
@@ -361,7 +380,7 @@ fn enumerate(max_len: usize) -> Vec<Block> {
             frontier = next;
         }
         for s in seqs {
-            out.push(Block { lazies: lazies.clone(), bodies: bodies.clone(), main: s });
+            out.push(Block { lazies: lazies.clone(), bodies: bodies.clone(), main: s, heap: false });
         }
     }
     out
@@ -369,7 +388,7 @@ fn enumerate(max_len: usize) -> Vec<Block> {
 
 // ---- random generation ----------------------------------------------------------------------
 
-fn gen_block(t: &mut Tape, max_len: usize) -> Block {
+fn gen_block(t: &mut Tape, max_len: usize, traffic: bool) -> Block {
     let nl = 1 + t.pick(3);
     let mut lazies = vec![];
     for _ in 0..nl {
@@ -382,6 +401,16 @@ fn gen_block(t: &mut Tape, max_len: usize) -> Block {
     let nt = t.pick(4);
     let mut counter = 1;
     let mut simple_op = |t: &mut Tape, in_thread: bool, counter: &mut i64| -> Op {
+        // channel traffic: producer ahead of consumer on channel 0, so that the queue is reused
+        // while it holds messages
+        if traffic && t.chance(3, 4) {
+            let c = if t.chance(5, 6) { 0 } else { 1 };
+            if t.chance(5, 9) {
+                *counter += 1;
+                return Op::Send(c, *counter);
+            }
+            return Op::Recv(c);
+        }
         match t.pick(if in_thread { 9 } else { 8 }) {
             0 | 1 => {
                 *counter += 1;
@@ -426,7 +455,14 @@ fn gen_block(t: &mut Tape, max_len: usize) -> Block {
             main.push(simple_op(t, false, &mut counter));
         }
     }
-    Block { lazies, bodies, main }
+    Block { lazies, bodies, main, heap: false }
+}
+
+/// a block with heap payloads and producer-ahead-of-consumer channel traffic (used by C05)
+pub fn gen_traffic_block(t: &mut Tape, max_len: usize) -> Block {
+    let mut b = gen_block(t, max_len, true);
+    b.heap = true;
+    b
 }
 
 // ---- property -----------------------------------------------------------------------------
@@ -484,8 +520,13 @@ impl Property for C17 {
         ))
     }
     fn gen(&self, t: &mut Tape, tier: Tier) -> Value {
-        let b = gen_block(t, tier.pick(24, 40));
-        json!({ "blocks": [b] })
+        // read first so that the choice survives shrinking of the sequence
+        let heap = t.chance(1, 3);
+        let period = if heap && t.chance(3, 4) { *t.choose(&[1u64, 2, 3, 5, 13]) } else { 0 };
+        let traffic = heap && t.chance(2, 3);
+        let mut b = gen_block(t, tier.pick(24, 40), traffic);
+        b.heap = heap;
+        json!({ "blocks": [b], "gc_period": period })
     }
     fn exec(&self, ctx: &mut WorkerCtx, case: &Value) -> Value {
         let blocks: Vec<Block> = serde_json::from_value(case["blocks"].clone()).unwrap();
@@ -496,6 +537,14 @@ impl Property for C17 {
         let vm: gluon::RootedThread = ctx.state.as_ref().unwrap().downcast_ref::<gluon::RootedThread>().unwrap().clone();
         let src = program_text(&blocks);
         let _ = gl::take_host_log();
+        // optional GC schedule: a collection at every k-th allocation check, swept blocks poisoned
+        // and kept (a message / cell content freed while reachable then reads back as garbage)
+        let period = case["gc_period"].as_u64().unwrap_or(0);
+        if period > 0 {
+            gluon::vm::verif::reset_counters();
+            gluon::vm::verif::QUARANTINE.store(true, std::sync::atomic::Ordering::Relaxed);
+            gluon::vm::verif::GC_STRESS.store(period, std::sync::atomic::Ordering::Relaxed);
+        }
         let (tx, rx) = std::sync::mpsc::channel();
         let src2 = src.clone();
         let handle = std::thread::Builder::new()
@@ -529,6 +578,8 @@ impl Property for C17 {
                 Err(_) => break None,
             }
         };
+        gluon::vm::verif::GC_STRESS.store(0, std::sync::atomic::Ordering::Relaxed);
+        gluon::vm::verif::QUARANTINE.store(false, std::sync::atomic::Ordering::Relaxed);
         let log = gl::take_host_log();
         match out {
             Some(o) => {
@@ -654,7 +705,7 @@ impl Property for C17 {
     }
 }
 
-fn features(b: &Block) -> Vec<String> {
+pub fn features(b: &Block) -> Vec<String> {
     let mut f = vec![];
     let all: Vec<&Op> = b.main.iter().chain(b.bodies.iter().flatten()).collect();
     if b.lazies.iter().any(|k| matches!(k, LazyKind::Fail)) && all.iter().any(|o| matches!(o, Op::Force(_) | Op::ForceUncaught(_))) {
@@ -674,6 +725,23 @@ fn features(b: &Block) -> Vec<String> {
     }
     if all.iter().any(|o| matches!(o, Op::Recv(_))) {
         f.push("recv".into());
+    }
+    if b.heap {
+        f.push("heap_payload".into());
+        // a receive while the queue's ring buffer is wrapped: more messages were sent in total
+        // than the queue ever held at once and at least one was taken out in between
+        let mut sent = vec![0usize; NCH];
+        let mut taken = vec![0usize; NCH];
+        for o in &b.main {
+            match o {
+                Op::Send(c, _) => sent[*c] += 1,
+                Op::Recv(c) if sent[*c] > taken[*c] => taken[*c] += 1,
+                _ => {}
+            }
+        }
+        if (0..NCH).any(|c| sent[c] >= 5 && taken[c] >= 2) {
+            f.push("queue_reuse".into());
+        }
     }
     f
 }
